@@ -612,6 +612,13 @@ func (e *SpecEnv) call(x *ast.CallExpr) T {
 			return App(SInt, "slen", a)
 		}
 		sfail("len() of sort %s", a.Sort)
+	case "payload":
+		// the integer payload of an interface value (what x.(uint64) etc. yields when the assertion succeeds)
+		a := e.tr(x.Args[0])
+		if a.Sort != SIface {
+			sfail("payload() of sort %s", a.Sort)
+		}
+		return App(SInt, "ipay", a)
 	case "cap":
 		a := e.tr(x.Args[0])
 		if a.Sort != SSlice {
